@@ -20,6 +20,7 @@ import (
 	"github.com/vektra/mockery/v3/internal/verifhook"
 	"github.com/vektra/mockery/v3/template"
 	"github.com/xeipuuv/gojsonschema"
+	"golang.org/x/mod/modfile"
 	"golang.org/x/tools/go/packages"
 	"golang.org/x/tools/imports"
 )
@@ -97,14 +98,12 @@ func findPkgPath(dirPath *pathlib.Path) (string, error) {
 	if err != nil {
 		return "", stackerr.NewStackErr(err)
 	}
-	scanner := bufio.NewScanner(bytes.NewReader(fileBytes))
-	// Iterate over each line
-	for scanner.Scan() {
-		if !strings.HasPrefix(scanner.Text(), "module") {
-			continue
-		}
-		moduleName := strings.Split(scanner.Text(), "module ")[1]
-		return pathlib.NewPath(moduleName, pathlib.PathWithSeperator("/")).
+	goMod, err := modfile.ParseLax(goModFile.String(), fileBytes, nil)
+	if err != nil {
+		return "", stackerr.NewStackErrf(ErrGoModInvalid, "parsing %s: %s", goModFile.String(), err.Error())
+	}
+	if goMod.Module != nil && goMod.Module.Mod.Path != "" {
+		return pathlib.NewPath(goMod.Module.Mod.Path, pathlib.PathWithSeperator("/")).
 			JoinPath(dirRelative).
 			Clean().
 			String(), nil
